@@ -36,11 +36,20 @@ def make_fault_plan(spec):
 
 def _mk(task):
     from . import scen as S
+    from . import modef  # noqa: F401  (registers the mode-F oracles)
     from .oracles import ORACLES
 
     sc = task["scen"]
     oracles = [ORACLES[n] for n in task["oracles"]]
     fp = task.get("fault")
+
+    if task.get("world") == "F":
+        from . import modef
+
+        def mw():
+            return modef.make_world_f(sc, oracles=oracles, fault_plan=make_fault_plan(fp))
+
+        return mw
 
     def mw():
         return S.make_world(sc, oracles=oracles, fault_plan=make_fault_plan(fp))
